@@ -1,3 +1,257 @@
+/-
+Lemmas for C05: `validateRequests` spelled out, the bridge between `Message.validate` and the specification's
+`ItemOK`/`Sendable` (tables and sizes agree), and the layout of the frame header `writeFrame` produces.
+-/
 import Rscp.Props.C01
 import Rscp.Spec.Send
 import Rscp.Lemmas.Client
+namespace Rscp.Lemmas.Send
+open Rscp Rscp.Model
+
+/-! ## the tables of the implementation and of the specification -/
+
+theorem lookup_map {β γ} (f : β → γ) (k : Nat) (l : List (Nat × β)) :
+    lookup k (l.map fun x => (x.1, f x.2)) = (lookup k l).map f := by
+  induction l with
+  | nil => rfl
+  | cons a r ih =>
+    obtain ⟨a1, a2⟩ := a
+    simp only [List.map, lookup]
+    split <;> simp [ih]
+
+theorem validateKind_typeRow (dt : Nat) : lookup dt Gen.validateKind = (Spec.typeRow dt).map Prod.fst := by
+  have : Gen.validateKind = Spec.typeTable.map fun x => (x.1, Prod.fst x.2) := by decide
+  rw [this, lookup_map]; rfl
+
+theorem validateKind_iff (dt : Nat) (k : Kind) :
+    lookup dt Gen.validateKind = some k ↔ ∃ fixed, Spec.typeRow dt = some (k, fixed) := by
+  rw [validateKind_typeRow, Option.map_eq_some_iff]
+  constructor
+  · rintro ⟨⟨k', f⟩, h, rfl⟩; exact ⟨f, h⟩
+  · rintro ⟨f, h⟩; exact ⟨(k, f), h, rfl⟩
+
+theorem isRequest_iff (t : Nat) : Gen.Leaf.isRequest t = true ↔ t.testBit 23 = false := by
+  simp [Gen.Leaf.isRequest, Nat.testBit, Nat.and_comm]
+
+/-! ## `validateRequests` spelled out -/
+
+theorem go_ok_iff : ∀ ms : List Msg, validateRequests.go ms = .ok () ↔
+    (∀ m ∈ ms, Gen.Leaf.isRequest m.tag = true) ∧ validateMsgs ms = .ok ()
+  | [] => by simp [validateRequests.go, validateMsgs]
+  | m :: r => by
+    have ih := go_ok_iff r
+    simp only [validateRequests.go, validateMsgs, List.mem_cons, forall_eq_or_imp]
+    cases hreq : Gen.Leaf.isRequest m.tag
+    · simp
+    · cases hm : validateMsg m with
+      | ok u => cases u; simpa using ih
+      | err e => simp
+      | panic => simp
+
+theorem validateRequests_ok_iff (ms : List Msg) : validateRequests ms = .ok () ↔
+    (∀ m ∈ ms, Gen.Leaf.isRequest m.tag = true) ∧ validateMsgs ms = .ok () ∧ msgsSizeWide ms ≤ 65535 := by
+  rw [← and_assoc, ← go_ok_iff]
+  simp only [validateRequests]
+  cases hgo : validateRequests.go ms with
+  | ok u =>
+    cases u
+    simp only [Gen.Leaf.validateRequests_tooLong]
+    by_cases h : msgsSizeWide ms > 65535
+    · simp [h]
+    · simp [h]; omega
+  | err e => simp
+  | panic => simp
+
+/-! ## sizes -/
+
+/-- for a value of the kind the table requires, the model's size is the specification's wire size -/
+theorem valueSizeWide_eq (dt : Nat) (v : Val) (hok : Spec.ValOK v)
+    (hk : lookup dt Gen.validateKind = some v.kind) :
+    valueSizeWide dt v = match v with | .msgs ms => msgsSizeWide ms | v => Spec.wireValSize v := by
+  obtain ⟨-, h2, h3, -, h5⟩ := table_facts dt _ hk
+  cases v with
+  | num k n =>
+    have hw : k.width ≠ none := Model.kind_inRange_width hok
+    cases k <;> simp_all [valueSizeWide, Gen.Leaf.size_isVariable, Spec.wireValSize, Val.kind, fixedOf, Kind.width]
+  | _ => simp_all [valueSizeWide, Gen.Leaf.size_isVariable, Spec.wireValSize, Val.kind, fixedOf]
+
+/-! ## `validate` ⇔ `ItemOK` -/
+
+theorem kind_ne_msgs (v : Val) (hok : Spec.ValOK v) (hv : ∀ ms, v ≠ .msgs ms) : v.kind ≠ .msgs := by
+  cases v with
+  | msgs ms => exact absurd rfl (hv ms)
+  | num k n =>
+    intro h
+    simp only [Val.kind] at h
+    subst h
+    exact Model.kind_inRange_width (k := .msgs) (n := n) hok rfl
+  | _ => simp [Val.kind]
+
+theorem validateMsg_leaf (tag dt : Nat) (v : Val) (hv : ∀ ms, v ≠ .msgs ms) :
+    validateMsg (.mk tag dt v) =
+      if !isValidValue dt v then .err .typeMismatch
+      else if Gen.Leaf.validate_tooLong (valueSizeWide dt v) then .err .dataLimit
+      else if dt = Gen.C.Container then .panic else .ok () := by
+  cases v with
+  | msgs ms => exact absurd rfl (hv ms)
+  | _ => simp only [validateMsg]
+
+theorem ex_kind {R : Option (Kind × Option Nat)} {K : Kind} :
+    (∃ k fixed, R = some (k, fixed) ∧ K = k) ↔ ∃ fixed, R = some (K, fixed) := by
+  constructor
+  · rintro ⟨k, f, h, rfl⟩; exact ⟨f, h⟩
+  · rintro ⟨f, h⟩; exact ⟨K, f, h, rfl⟩
+
+theorem maxItemData_eq : Spec.maxItemData = 65528 := by decide
+
+theorem itemOK_leaf (tag dt : Nat) (v : Val) (hv : ∀ ms, v ≠ .msgs ms) :
+    Spec.ItemOK (.mk tag dt v) ↔
+      (∃ fixed, Spec.typeRow dt = some (v.kind, fixed)) ∧ Spec.wireValSize v ≤ 65528 := by
+  cases v with
+  | msgs ms => exact absurd rfl (hv ms)
+  | _ => simp only [Spec.ItemOK, ex_kind, maxItemData_eq, and_true]
+
+theorem isValidValue_iff (dt : Nat) (v : Val) :
+    isValidValue dt v = true ↔ lookup dt Gen.validateKind = some v.kind := by
+  unfold isValidValue
+  cases lookup dt Gen.validateKind with
+  | none => simp
+  | some k => simp only [beq_iff_eq, Option.some.injEq]; exact eq_comm
+
+def P (m : Msg) : Prop := Spec.MsgOK m →
+  (validateMsg m = .ok () ↔ Spec.ItemOK m) ∧ (Spec.ItemOK m → msgSizeWide m = 7 + Spec.wireValSize m.val)
+def Q (ms : List Msg) : Prop := Spec.MsgsOK ms →
+  (validateMsgs ms = .ok () ↔ Spec.ItemsOK ms) ∧ (Spec.ItemsOK ms → msgsSizeWide ms = Spec.wireSize ms)
+
+theorem bridge_leaf (tag dt : Nat) (v : Val) (hv : ∀ ms, v ≠ .msgs ms) : P (.mk tag dt v) := by
+  intro hok
+  have hvok : Spec.ValOK v := hok.2.2
+  have hsz : lookup dt Gen.validateKind = some v.kind → valueSizeWide dt v = Spec.wireValSize v := by
+    intro hk
+    rw [valueSizeWide_eq dt v hvok hk]
+    cases v with
+    | msgs ms => exact absurd rfl (hv ms)
+    | _ => rfl
+  rw [itemOK_leaf tag dt v hv, ← validateKind_iff]
+  refine ⟨?_, ?_⟩
+  · constructor
+    · intro h
+      obtain ⟨h1, h2, -⟩ := validateMsg_inv tag dt v h
+      exact ⟨h1, by rw [← hsz h1]; exact h2⟩
+    · rintro ⟨h1, h2⟩
+      have hc : dt ≠ Gen.C.Container := fun hc =>
+        kind_ne_msgs v hvok hv ((table_facts dt _ h1).2.2.2.1.1 hc)
+      rw [validateMsg_leaf tag dt v hv, (isValidValue_iff dt v).mpr h1, hsz h1]
+      have : ¬ Spec.wireValSize v > 65528 := by omega
+      simp [Gen.Leaf.validate_tooLong, this, hc]
+  · rintro ⟨h1, -⟩
+    simp only [msgSizeWide, Msg.val, hsz h1]; rfl
+
+theorem bridge_node (tag dt : Nat) (ms : List Msg) (ih : Q ms) : P (.mk tag dt (.msgs ms)) := by
+  intro hok
+  have hmsok : Spec.MsgsOK ms := by simpa [Spec.MsgOK, Spec.ValOK] using hok.2.2
+  obtain ⟨ih1, ih2⟩ := ih hmsok
+  have hsz : lookup dt Gen.validateKind = some .msgs → valueSizeWide dt (.msgs ms) = msgsSizeWide ms :=
+    fun hk => valueSizeWide_eq dt (.msgs ms) hok.2.2 hk
+  have hitem : Spec.ItemOK (.mk tag dt (.msgs ms)) ↔
+      (∃ fixed, Spec.typeRow dt = some (.msgs, fixed)) ∧ Spec.wireSize ms ≤ 65528 ∧ Spec.ItemsOK ms := by
+    simp only [Spec.ItemOK, ex_kind, maxItemData_eq, Spec.wireValSize, Val.kind]
+  rw [hitem, ← validateKind_iff]
+  refine ⟨?_, ?_⟩
+  · constructor
+    · intro h
+      obtain ⟨h1, h2, h3⟩ := validateMsg_inv tag dt _ h
+      have hi := ih1.mp (h3 ms rfl)
+      exact ⟨h1, by rw [← ih2 hi, ← hsz h1]; exact h2, hi⟩
+    · rintro ⟨h1, h2, h3⟩
+      have hc : dt = Gen.C.Container := (table_facts dt _ h1).2.2.2.1.2 rfl
+      have : ¬ msgsSizeWide ms > 65528 := by rw [ih2 h3]; omega
+      simp only [validateMsg, (isValidValue_iff dt (.msgs ms)).mpr h1, hsz h1]
+      simp [Gen.Leaf.validate_tooLong, this, hc, ih1.mpr h3]
+  · rintro ⟨h1, -, h3⟩
+    simp only [msgSizeWide, Msg.val, hsz h1, ih2 h3, Spec.wireValSize]; rfl
+
+theorem bridge : (∀ m, P m) ∧ (∀ ms, Q ms) := by
+  apply msg_induction bridge_leaf bridge_node
+  · intro _; simp [validateMsgs, Spec.ItemsOK, msgsSizeWide, Spec.wireSize]
+  · intro m ms pm qms hok
+    obtain ⟨p1, p2⟩ := pm hok.1
+    obtain ⟨q1, q2⟩ := qms hok.2
+    refine ⟨?_, ?_⟩
+    · simp only [Spec.ItemsOK, ← p1, ← q1, validateMsgs]
+      cases hm : validateMsg m with
+      | ok u => cases u; simp
+      | err e => simp
+      | panic => simp
+    · rintro ⟨i1, i2⟩
+      obtain ⟨tag, dt, v⟩ := m
+      simp only [msgsSizeWide, Spec.wireSize, p2 i1, q2 i2, Msg.val]
+
+/-- under the Go-value assumption, request validation accepts exactly the sendable lists -/
+theorem validateRequests_iff_sendable (reqs : List Msg) (hok : Spec.MsgsOK reqs) :
+    validateRequests reqs = .ok () ↔ Spec.Sendable reqs := by
+  obtain ⟨q1, q2⟩ := bridge.2 reqs hok
+  rw [validateRequests_ok_iff, Spec.Sendable]
+  constructor
+  · rintro ⟨h1, h2, h3⟩
+    have hi := q1.mp h2
+    exact ⟨fun m hm => (isRequest_iff _).mp (h1 m hm), hi, by rw [← q2 hi]; exact h3⟩
+  · rintro ⟨h1, h2, h3⟩
+    exact ⟨fun m hm => (isRequest_iff _).mpr (h1 m hm), q1.mpr h2, by rw [q2 h2]; exact h3⟩
+
+/-- what passed request validation is a well-formed list in the sense of C01 -/
+theorem wf_of_validated (reqs : List Msg) (hok : Spec.MsgsOK reqs) (h : validateRequests reqs = .ok ()) :
+    Spec.WFList reqs := by
+  obtain ⟨-, h2, h3⟩ := (validateRequests_ok_iff reqs).mp h
+  exact ⟨hok, h2, h3⟩
+
+/-! ## the layout of the frame header -/
+
+theorem writePlain_layout (ms : List Msg) (crc : Bool) (sec nsec : Int) (h : Spec.WFList ms) :
+    ∃ rest, writePlain ms crc sec nsec = .ok (leBytes 2 Gen.C.RSCP_MAGIC ++ (leBytes 2 (ctrlWord crc) ++
+      (leBytes 8 (toUnsigned 8 sec) ++ (leBytes 4 (toUnsigned 4 nsec) ++ rest)))) := by
+  obtain ⟨body, -, -, -, hframe⟩ := writeFrame_ok ms crc sec nsec h
+  obtain ⟨k, hpad, -, -⟩ := pad_spec (frameBytes crc sec nsec (msgsSizeWide ms) body)
+  simp only [writePlain, hframe]
+  rw [hpad]
+  simp only [frameBytes, framePre, List.append_assoc]
+  exact ⟨_, rfl⟩
+
+theorem layout_fields (a b c d rest : List Byte) (ha : a.length = 2) (hb : b.length = 2)
+    (hc : c.length = 8) (hd : d.length = 4) :
+    ((a ++ (b ++ (c ++ (d ++ rest)))).drop 2).take 2 = b ∧
+    ((a ++ (b ++ (c ++ (d ++ rest)))).drop 4).take 8 = c ∧
+    ((a ++ (b ++ (c ++ (d ++ rest)))).drop 12).take 4 = d := by
+  refine ⟨?_, ?_, ?_⟩
+  · rw [List.drop_left' ha, List.take_left' hb]
+  · rw [← List.append_assoc, List.drop_left' (by rw [List.length_append, ha, hb]), List.take_left' hc]
+  · rw [← List.append_assoc, ← List.append_assoc,
+      List.drop_left' (by rw [List.length_append, List.length_append, ha, hb, hc]), List.take_left' hd]
+
+/-- everything C05 says about the frame the client hands over -/
+theorem send_frame (crc : Bool) (sec nsec : Int) (reqs : List Msg) (hok : Spec.MsgsOK reqs)
+    (hs : -(2^63 : Int) ≤ sec ∧ sec < (2^63 : Int)) (hn : 0 ≤ nsec ∧ nsec < 1000000000)
+    (hv : validateRequests reqs = .ok ()) :
+    ∃ p, writePlain reqs crc sec nsec = .ok p ∧ 32 ≤ p.length ∧ p.length % 32 = 0 ∧
+      Spec.specDecode p = some reqs ∧ decodeFrame p = .ok reqs ∧
+      toSigned 8 (leNat ((p.drop 4).take 8)) = sec ∧ toSigned 4 (leNat ((p.drop 12).take 4)) = nsec ∧
+      ((leNat ((p.drop 2).take 2) >>> 12) &&& 1 = 1 ↔ crc = true) := by
+  have hwf := wf_of_validated reqs hok hv
+  obtain ⟨p, hp, hlen, hmod, hspec⟩ := Props.C01.spec_roundtrip reqs crc sec nsec hwf hs hn
+  obtain ⟨rest, hlay⟩ := writePlain_layout reqs crc sec nsec hwf
+  have hpe := hp.symm.trans hlay
+  injection hpe with hpe
+  obtain ⟨f1, f2, f3⟩ := layout_fields (leBytes 2 Gen.C.RSCP_MAGIC) (leBytes 2 (ctrlWord crc))
+    (leBytes 8 (toUnsigned 8 sec)) (leBytes 4 (toUnsigned 4 nsec)) rest
+    (length_leBytes _ _) (length_leBytes _ _) (length_leBytes _ _) (length_leBytes _ _)
+  obtain ⟨hc1, -, -, hc4⟩ := ctrlWord_facts crc
+  refine ⟨p, hp, hlen, hmod, hspec, (Props.C03.accept_iff_wf p hlen hmod reqs).mpr hspec, ?_, ?_, ?_⟩
+  · rw [hpe, f2, leNat_leBytes_toUnsigned]
+    exact toSigned_toUnsigned 8 (by decide) sec hs.1 hs.2
+  · rw [hpe, f3, leNat_leBytes_toUnsigned]
+    apply toSigned_toUnsigned 4 (by decide) nsec
+    · simp only [Nat.reduceMul, Nat.reduceSub]; omega
+    · simp only [Nat.reduceMul, Nat.reduceSub]; omega
+  · rw [hpe, f1, leNat_leBytes_of_lt _ _ hc1]
+    exact hc4
+end Rscp.Lemmas.Send
